@@ -205,6 +205,10 @@ func checkC02(c *Ctx, r *Report, tier string) {
 	sharedMapAcrossItems(c, r, "C02.R5")
 	r.Rule("C02.R6", "an update cannot turn into a deletion: every error the index's Insert can return is decided by the id-exists test of the shard map (the update path removes first and re-inserts)", 1)
 	insertFailsOnlyOnDuplicate(c, r, "C02.R6")
+	metadataMergeKeepsNewKeys(c, r, "C02.R5")
+	r.Rule("C02.R7", "exact errors come from the log position: a proposing partition method does not consult the local index; the dimension guard of every value-carrying write cannot be bypassed by an empty vector", 4)
+	proposersDoNotReadTheIndex(c, r, "C02.R7")
+	borrow(c, r, "C11", "C11.R4", "C02.R7", "")
 	restoreCallbackDelegates(c, r, "C02.R3", "partition", "Hnsw")
 }
 
